@@ -317,6 +317,13 @@ func (r *Reader) newBlockReader(nextOff uint64, wantTyp byte) (br *blockReader, 
 		return nil, nil
 	}
 
+	if blockTyp == blockTypeLog {
+		// blockSize is the inflated size. Incompressible
+		// data deflates to slightly more than its size
+		// (stored blocks, zlib header and checksum), so
+		// read enough for the worst case.
+		blockSize += blockSize>>12 + blockSize>>14 + blockSize>>25 + 13
+	}
 	if blockSize > guessBlockSize {
 		block, err = r.getBlock(nextOff, blockSize)
 		if err != nil {
